@@ -353,6 +353,11 @@ func (p *asyncProducer) dispatcher() {
 		}
 
 		for _, interceptor := range p.conf.Producer.Interceptors {
+			if msg.retries > 0 {
+				// retried messages (and the internal fin markers travelling with them) pass
+				// through here again; interceptors run on the first pass only
+				break
+			}
 			msg.safelyApplyInterceptor(interceptor)
 		}
 
